@@ -200,9 +200,7 @@ def _mask_body_len_o(m):
 
 
 def guard_bits_o(d):
-    """twin of Resave.guard_bits on the psd_tools objects (payloads raw): bit k set = the guard of finding F-C02-(k+1) fails"""
-    from . import format_common as F
-
+    """twin of Resave.guard_bits on the psd_tools objects: bit set = the guard fails (1: F-C02-1, 2: F-C02-2, 8: F-C02-4, 16: F-C02-5, 32: F-C02-6)"""
     l = d.layer_and_mask_information
     li, g, bs = l.layer_info, l.global_layer_mask_info, l.tagged_blocks
     v = d.header.version
@@ -211,16 +209,8 @@ def guard_bits_o(d):
         bits |= 1
     if li is not None and bs is None:
         bits |= 2
-    if g is not None and g.overlay_color is None:
-        tl = 0
-        for t in (bs.values() if bs else []):
-            nb = 8 if (v == 2 and F.key_int(t.key) in F.BIG_KEYS()) else 4
-            n = nb + len(F.payload_bytes(t.data, padding=1, version=v))
-            tl += 8 + n + (-n) % 4
-        if not (17 <= 4 + tl + 2 + len(d.image_data.data)):
-            bits |= 4
     if g is None and bs:
-        bits |= 8
+        bits |= 8           # class of F-C02-4: unreachable since /repo f3a2729 (Properties/C02.v glmi_class_unreachable); still reported
     if li is not None and li.layer_records is not None:
         for r in li.layer_records:
             m = r.mask_data
@@ -311,10 +301,9 @@ LI = "psd.layer_and_mask_information.layer_info."
 _D = {
     1: lambda p, a, b: p in (LI + "layer_records", LI + "channel_image_data") and a.endswith("(len=0)") and b == "None",
     2: lambda p, a, b: p == "psd.layer_and_mask_information.tagged_blocks" and a == "None" and b == "TaggedBlocks(len=0)",
-    4: lambda p, a, b: p == "psd.layer_and_mask_information.global_layer_mask_info" and b == "None",
     32: lambda p, a, b: p.endswith(".data.sub_type") and "SECTION_DIVIDER_SETTING" in p.rsplit("]", 1)[0].rsplit("[", 1)[-1] and b == "None",
 }
-_FID = {1: "F-C02-1", 2: "F-C02-2", 4: "F-C02-3", 8: "F-C02-4", 16: "F-C02-5", 32: "F-C02-6"}
+_FID = {1: "F-C02-1", 2: "F-C02-2", 16: "F-C02-5", 32: "F-C02-6"}      # F-C02-3 / F-C02-4: fixed by /repo f3a2729, suppress nothing
 
 
 def explain(kind, obs):
@@ -325,11 +314,11 @@ def explain(kind, obs):
     if not isinstance(gb, int) or gb <= 0:
         return None
     if kind == "resaved-unreadable":
-        if str(obs.get("error", "")).startswith("OSError") and gb & 24:
-            return _FID[8] if gb & 8 else _FID[16]
+        if str(obs.get("error", "")).startswith("OSError") and gb & 16:
+            return _FID[16]
         return None
     diffs = obs.get("diffs")
-    if kind not in ("resaved-not-equal", "resave-drifts") or not isinstance(diffs, list) or not diffs:
+    if kind != "resaved-not-equal" or not isinstance(diffs, list) or not diffs:
         return None
     used = []
     for p, a, b in (tuple(x) for x in diffs):
@@ -337,10 +326,6 @@ def explain(kind, obs):
         if k is None:
             return None
         used.append(k)
-    if kind == "resave-drifts":
-        return _FID[4] if (4 in used and obs.get("len1", 0) - obs.get("len2", 0) == 4) else None
-    if 4 in used:
-        return None
     return _FID[min(used)]
 
 
@@ -403,8 +388,6 @@ def _still(b, kind):
 
 core.KNOWN_WITNESS["F-C02-1"] = lambda: _still(W1, "resaved-not-equal")
 core.KNOWN_WITNESS["F-C02-2"] = lambda: _still(W2, "resaved-not-equal")
-core.KNOWN_WITNESS["F-C02-3"] = lambda: _still(W3, "resave-drifts")
-core.KNOWN_WITNESS["F-C02-4"] = lambda: _still(W4, "resaved-unreadable")
 core.KNOWN_WITNESS["F-C02-5"] = lambda: _still(W5, "resaved-unreadable")
 core.KNOWN_WITNESS["F-C02-6"] = lambda: _still(W6, "resaved-not-equal")
 
@@ -470,7 +453,7 @@ def run():
                "(non-trivial = accepted mutant that differs from its seed); correspondence: accepted AND rejected mutants of the small seeds "
                "(all of them) and a sample per larger fixture, model reader/writer (vm_compute) vs implementation with payload registries emptied")
     # ---- Coq: theorems
-    if ck.coq_build(["theories/Psd/ResaveProofs.v", "theories/Properties/C02.v"]):
+    if ck.coq_build(["theories/Psd/ResaveProofs.v", "theories/Psd/ResaveWrite.v", "theories/Properties/C02.v"]):
         ck.collect_theorems("C02.v")
         wit = coq_witnesses()
         body = "From Coq Require Import List.\nImport ListNotations.\n" + "".join(
@@ -568,8 +551,11 @@ def run():
         "charset: codec_ok (decode undone by encode) - true of mac_roman, checked below on all 256 byte values; names are compared as their encoded bytes",
         "equality is Python equality of the attrs structures after write() ran (write refreshes channel lengths in place); NaN feather values compare "
         "equal when their bit patterns are equal",
-        "theorems are conditional on the save succeeding; success of the save is proved for the header/colour-mode/image-data sections and observed "
-        "(oracle: save-fails) for the rest" ,
+        "success of the save (save_succeeds, resave) is proved for byte strings below 1 GiB (4*len + padding + 20 < 2^32); the loss/drift part "
+        "(resave_guarded) has no size bound",
+        "8-byte length fields >= 2^63 (version 2) raise OverflowError in CPython: the function evaluated by the correspondence is read_psd_py "
+        "(Model.read_psd + those four checks), proved to accept a subset of what read_psd accepts; the re-read of the saved bytes in the theorems is "
+        "read_psd (the saved lengths are truthful and far below 2^63; compared on every case by the correspondence)",
     ]
     # codec_ok on the Python codec
     okc = all(bytes([x]).decode("macroman").encode("macroman") == bytes([x]) for x in range(256))
@@ -579,8 +565,19 @@ def run():
 
 def replay(path):
     fl = json.load(open(path))
+    if "input" not in fl:            # a broken obligation (theorem / correspondence shard), no failing input
+        print(json.dumps(fl, indent=1)[:3000])
+        return 1
     b = bytes.fromhex(fl["input"]["bytes"]["hex"])
-    print("low-level:", resave_oracle(b))
+    print("kind:", fl["kind"], "| level:", fl.get("level"), "| seed:", fl["input"]["seed"], "| mutation:", fl["input"]["mutation"], "| %d bytes" % len(b))
+    low = resave_oracle(b)
+    print("low-level:", low)
+    print("  explained by:", explain(low[0], low[1]))
     print("api      :", api_oracle(b))
-    print("kind:", fl["kind"], "| seed:", fl["input"]["seed"], "| mutation:", fl["input"]["mutation"])
+    # the container-level pipeline (payload registries emptied) in a child process, as the correspondence runs it
+    with multiprocessing.get_context("fork").Pool(1, initializer=_container_level) as pool:
+        out, info = pool.map(_cwork, [(0, b)])[0][1]
+    print("container:", out, info)
+    print("  = [0, digest(structure), guard bits, 0, written, digest(bytes), 0, digest(re-read), equal?, 0, second save identical?] or an error code per stage")
+    print("  model side: coq  Eval vm_compute in (resave_outcome %s).   (From PsdV Require Import Psd.Resave)" % ("<bytes>" if len(b) > 200 else core.zlist(list(b))))
     return 1
